@@ -152,7 +152,44 @@ def _check(case):
                 pass
             if len(bad) > 6:
                 return bad
+    if not bad:
+        bad += _rename_tuple_output_after_calls(d, p)
     return bad
+
+
+def _rename_tuple_output_after_calls(d, p):
+    """Routing of tuple outputs is by (current) name: after the calls above, rename one element of a multi-output
+    function and evaluate again against the equally renamed description."""
+    import copy
+    multi = [f for f in d["funcs"] if len(f["outputs"]) > 1]
+    if not multi:
+        return []
+    f0 = multi[0]
+    old, new = f0["outputs"][0], f0["outputs"][0] + "_rn"
+    d2 = copy.deepcopy(d)
+    for f in d2["funcs"]:
+        if old in f["outputs"]:
+            f["labels"] = {new: old}
+        f["outputs"] = [new if o == old else o for o in f["outputs"]]
+        if old in f["params"]:  # the function's own argument keeps its name; only the pipeline-level name changes
+            f.setdefault("orig", {})
+            f["orig"][new] = f["orig"].pop(old, old)
+        f["params"] = [new if q == old else q for q in f["params"]]
+        for key in ("defaults", "bound"):
+            if key in f and old in f[key]:
+                f[key][new] = f[key].pop(old)
+    try:
+        p.update_renames({old: new}, update_from="current")
+    except Exception as e:  # noqa: BLE001
+        return [f"update_renames({old}->{new}) raised {type(e).__name__}: {str(e)[:100]}"]
+    bad = []
+    for out in dag.all_outputs(d2):
+        need = dag.needed_roots(d2, out, set())
+        kw = {n: f"v_{n}" for n in need if n in dag.ROOTS}
+        if len(kw) != len(need):
+            continue
+        bad += [f"after renaming tuple element {old}->{new}: {out}: {b}" for b in check_calls(d2, p, out, kw, modes=("call",))]
+    return bad[:4]
 
 
 def _nontrivial(case):
